@@ -125,6 +125,7 @@ theorem leaf0_nodeWF : NodeWF toyH .ordinary [true, false] [] := by
   rw [this, TonVerif.Proofs.OrdCell.plainDepthAt_zero]
   decide
 
+/-- the two-cell example tree is spec-valid (hypothesis of `c02_prune_valid`) -/
 theorem tree0_wf : TreeWF toyH tree0 := by
   unfold tree0 leaf0
   rw [TreeWF]
